@@ -21,45 +21,15 @@ TECHNIQUE = ("static analysis: abstract execution of BaseLoss.fit up to the opti
              "on token lists (R-LAYOUT) and inspection of the recorded minimize() arguments (R-WIRE)")
 
 
-class Arr(AList):
-    pass
+from ..core.numarr import NumArr, num_summaries
 
 
-def _flat(a):
-    out = []
-    for x in a:
-        if isinstance(x, (list, tuple)):
-            out.extend(_flat(x))
-        else:
-            out.append(x)
-    return out
+def Arr(items, tag="ndarray", **extra):
+    return NumArr(items)
 
 
 def np_summaries(record):
-    def append(a, b):
-        return Arr(_flat(a) + _flat(b), "ndarray")
-
-    def reshape(a, shape, order="C"):
-        f = _flat(a)
-        r, c = shape
-        if r * c != len(f):
-            raise Raised("ValueError(reshape)")
-        if order in ("F", "f"):
-            return Arr([[f[i + j * r] for j in range(c)] for i in range(r)], "ndarray")
-        return Arr([[f[i * c + j] for j in range(c)] for i in range(r)], "ndarray")
-
-    def array(a, *args, **kw):
-        if isinstance(a, (list, tuple)):
-            return Arr([list(x) if isinstance(x, (list, tuple)) else x for x in a], "ndarray", T=None)
-        return a
-
-    def column_stack(t):
-        cols = [list(c) for c in t]
-        return Arr([[c[i] for c in cols] for i in range(len(cols[0]))], "ndarray")
-
-    def vstack(t):
-        return Arr([list(r) for r in t], "ndarray")
-
+    """numpy on concrete small arrays (core/numarr.py: values, dtype and casting as documented) plus a recording minimize"""
     def minimize(*args, **kw):
         names = ["fun", "x0", "args", "method", "jac", "hess", "hessp", "bounds", "constraints", "tol", "callback", "options"]
         b = dict(zip(names, args))
@@ -68,9 +38,23 @@ def np_summaries(record):
         return {"x": Tok("xhat")}
     import math as _m
     num = lambda f: (lambda v: f(v) if isinstance(v, (int, float)) and not isinstance(v, bool) else (_ for _ in ()).throw(Undecided("numeric predicate on %r" % (v,))))
-    extra = {"np.isfinite": num(_m.isfinite), "np.isinf": num(_m.isinf), "np.isnan": num(_m.isnan), "math.isfinite": num(_m.isfinite)}
-    return dict(extra, **{"np.append": append, "np.reshape": reshape, "np.array": array, "np.column_stack": column_stack, "np.vstack": vstack,
-            "np.asarray": array, "minimize": minimize, "scipy.optimize.minimize": minimize, "zip": None})
+    s = dict(num_summaries())
+    s.pop("max", None)
+    s.pop("min", None)
+    base_isfinite, base_isinf = s.get("np.isfinite"), s.get("np.isinf")
+    s.update({"np.isfinite": lambda v: base_isfinite(v) if isinstance(v, NumArr) else num(_m.isfinite)(v),
+              "np.isinf": lambda v: base_isinf(v) if isinstance(v, NumArr) else num(_m.isinf)(v),
+              "np.isnan": num(_m.isnan), "math.isfinite": num(_m.isfinite),
+              "minimize": minimize, "scipy.optimize.minimize": minimize, "zip": None})
+    return s
+
+
+def _rows(bounds):
+    if isinstance(bounds, NumArr):
+        return [list(r) if isinstance(r, NumArr) else r for r in bounds.data]
+    if isinstance(bounds, (list, tuple)):
+        return [list(r) for r in bounds]
+    return None
 
 
 def check(repo, res, tier):
@@ -93,7 +77,7 @@ def check(repo, res, tier):
         summ = np_summaries(rec)
         summ.pop("zip")
         me = Obj("Loss", __open__=True)
-        ab = Abs({}, {"np.ndarray": lambda v: isinstance(v, Arr)}, summ, me)
+        ab = Abs({}, {"np.ndarray": lambda v: isinstance(v, NumArr)}, summ, me)
         a = {"x": list(x), "lb": None, "ub": None, "A": None, "b": None, "disp": False, "full_output": False}
         a.update(args)
         try:
@@ -110,7 +94,7 @@ def check(repo, res, tier):
         return
     call = rec[0]
     bounds = call.get("bounds")
-    rows = [list(r) for r in bounds] if isinstance(bounds, list) else None
+    rows = _rows(bounds)
     want = [[lb[i], ub[i]] for i in range(n)]
     res.check(rows == want, "R-LAYOUT", f, "box-bounds", "bounds row i is (lb[i], ub[i])",
               "for lb=%s ub=%s the bounds handed to the optimiser are %s: lower and upper limits are paired with the wrong variables" % (lb, ub, rows), node=f.node)
@@ -131,12 +115,12 @@ def check(repo, res, tier):
                   "fit with %s %s (minimize called %d times)" % (tag, k, len(r)), node=f.node)
     # no bounds: every variable gets (None, None)
     k, o, r = run({})
-    ok = k == "return" and len(r) == 1 and isinstance(r[0].get("bounds"), list) and [list(rr) for rr in r[0].get("bounds")] == [[None, None]] * n
+    ok = k == "return" and len(r) == 1 and _rows(r[0].get("bounds")) == [[None, None]] * n
     res.check(ok, "R-LAYOUT", f, "unbounded", "without bounds every variable gets (None, None)",
               "without bounds the optimiser receives %s" % (r[0].get("bounds") if r else k,), node=f.node)
     # one-sided
     k, o, r = run({"lb": list(lb)})
-    ok = k == "return" and len(r) == 1 and isinstance(r[0].get("bounds"), list) and [list(rr) for rr in r[0].get("bounds")] == [[lb[i], None] for i in range(n)]
+    ok = k == "return" and len(r) == 1 and _rows(r[0].get("bounds")) == [[lb[i], None] for i in range(n)]
     res.check(ok, "R-LAYOUT", f, "lower-only", "lower bounds only: rows (lb[i], None)", "lower bounds only -> %s" % (r[0].get("bounds") if r else k,), node=f.node)
     # concrete bounds, including the values a guard is most likely to mishandle: 0, negative, infinite
     inf = float("inf")
@@ -150,11 +134,24 @@ def check(repo, res, tier):
             lo = -inf if lo is None else lo
             hi = inf if hi is None else hi
             return (lo, hi)
-        got = [norm_row(list(rr), i) for i, rr in enumerate(r[0].get("bounds"))] if (k == "return" and len(r) == 1 and isinstance(r[0].get("bounds"), list)) else None
+        got = [norm_row(list(rr), i) for i, rr in enumerate(_rows(r[0].get("bounds")))] if (k == "return" and len(r) == 1 and _rows(r[0].get("bounds")) is not None) else None
         want = [(lbn[i], ubn[i]) for i in range(n)]
         res.check(got == want, "R-LAYOUT", f, "numeric-bounds",
                   "bounds (0, 0), (1.5, 3), (-2, inf) reach the optimiser unchanged (an infinite side may be passed as None)",
                   "for lb=%s ub=%s the optimiser receives %s: a bound is dropped or altered (a zero bound is a bound)" % (lbn, ubn, r[0].get("bounds") if r else k), node=f.node)
+    # bounds of mixed numeric type: integer lower bounds with fractional upper bounds (and the reverse) reach the optimiser unchanged
+    for tag, lbm, ubm in (("int-lower/float-upper", [0, 0, 1], [0.9, 1.75, 2.5]), ("float-lower/int-upper", [0.25, 0.5, 1.5], [1, 2, 3])):
+        k, o, r = run({"lb": list(lbm), "ub": list(ubm)})
+        if k == "undecided":
+            res.undecided("R-LAYOUT", f, "mixed-type-bounds(%s)" % tag, "outside the modelled subset: %s" % o)
+            continue
+        got = _rows(r[0].get("bounds")) if (k == "return" and len(r) == 1) else None
+        want_m = [[lbm[i], ubm[i]] for i in range(n)]
+        def _eq(a, b):
+            return isinstance(a, (int, float)) and not isinstance(a, bool) and abs(a - b) < 1e-12
+        res.check(got is not None and len(got) == n and all(len(ra) == 2 and _eq(ra[0], rb[0]) and _eq(ra[1], rb[1]) for ra, rb in zip(got, want_m)), "R-LAYOUT", f, "mixed-type-bounds(%s)" % tag,
+                  "bounds %s / %s reach the optimiser with their values" % (lbm, ubm),
+                  "for lb=%s ub=%s the optimiser receives %s: a bound is cast to the other's type and loses its fractional part" % (lbm, ubm, got if got is not None else k), node=f.node)
     # sensitivity and cost are methods of the same class with theta as first argument
     cls = repo.cls(M.M_LOSS, "BaseLoss")
     for m in ("cost", "sensitivity"):
